@@ -198,7 +198,7 @@ func decodeCfg(cfg []int64) (capacity, start int64, rates []rateSpec, ok bool) {
 	return
 }
 
-var periodChoices = []int64{1e9, 1e9, 2e9, 5e9, 10e9, 60e9, 5e8, 15e8}
+var periodChoices = []int64{1e9, 1e9, 2e9, 5e9, 10e9, 60e9, 5e8, 15e8, 5e7, 99e6}
 
 // genDynamic: a limiter with a rate extractor. Few sources around a small capacity; requests carry alternative rate sets
 // with longer and shorter periods than the defaults, so that a source's period set, and with it the lifetime of its
